@@ -40,11 +40,11 @@ func Engine() *worker.Engine {
 		NumSampled: func(p, tier string) int {
 			switch p + "/" + tier {
 			case "C06/quick":
-				return scale(60000)
+				return scale(300000)
 			case "C06/thorough":
 				return scale(3000000)
 			case "C08/quick":
-				return scale(60000)
+				return scale(100000)
 			case "C08/thorough":
 				return scale(3000000)
 			case "C20/quick":
